@@ -112,6 +112,18 @@ pub fn pick_addr(plan: &Plan, rng: &mut Rng, peer: usize, v6: bool, offscope: bo
             a.dmac[bit / 8] ^= 1 << (bit % 8);
             a.note = "mac-one-bit-off";
         }
+        2 if plan.cfg.self_ips.is_some() && rng.chance(1, 3) => {
+            // the right group prefix with the wrong family's address bits: 33:33:ff + the low bits
+            // of a handled IPv4 address, 01:00:5e + the low bits of a handled IPv6 address
+            let v4 = plan.targets4.first().map(|x| x.octets());
+            let v6o = plan.targets6.first().map(|x| x.octets());
+            a.dmac = match (rng.chance(1, 2), v4, v6o) {
+                (true, Some(o), _) | (_, Some(o), None) => [0x33, 0x33, 0xff, o[1], o[2], o[3]],
+                (_, _, Some(o)) => [0x01, 0x00, 0x5e, o[13] & 0x7f, o[14], o[15]],
+                _ => a.dmac,
+            };
+            a.note = "cross-family-group-mac";
+        }
         2 => {
             // wrong multicast mapping: 24 instead of 23 bits, or another group
             match handled {
@@ -250,6 +262,8 @@ impl ArpActor {
                 }
                 7 => f.sha = [0; 6],
                 8 => f.spa = f.tpa, // gratuitous
+                9 => f.sha = plan.cfg.mac, // the requester claims the responder's own hardware address
+                10 => f.sha = BROADCAST,
                 _ => {}
             }
             let dmac = if rng.chance(2, 3) && a.note == "own-mac" { BROADCAST } else { a.dmac };
@@ -320,7 +334,10 @@ impl IcmpActor {
         for _ in 0..rng.range(1, 5) {
             let v6 = rng.chance(1, 2);
             let off1 = offscope && rng.chance(2, 3);
-            let a = pick_addr(plan, rng, peer, v6, off1);
+            let mut a = pick_addr(plan, rng, peer, v6, off1);
+            if !off1 && rng.chance(1, 40) {
+                a.src = a.dst; // an echo request that claims the responder's own address as its source
+            }
             let (ty, code) = match rng.below(10) {
                 0 => (if v6 { 129u8 } else { 0u8 }, 0u8), // echo reply
                 1 => (if v6 { 128 } else { 8 }, rng.range(1, 255) as u8),
@@ -647,6 +664,16 @@ impl TcpClient {
             }
             msgs.push(m);
         }
+        // ONC-RPC dialogue: a client may reuse a transaction id for another call (the id alone
+        // does not say what is asked)
+        if app == App::Rpc && msgs.len() > 1 && rng.chance(1, 3) && msgs[0].bytes.len() >= 8 && msgs[0].bytes[0] == 0x80 {
+            let xid = [msgs[0].bytes[4], msgs[0].bytes[5], msgs[0].bytes[6], msgs[0].bytes[7]];
+            for m in msgs.iter_mut().skip(1) {
+                if m.app == App::Rpc && m.bytes.len() >= 8 && m.bytes[0] == 0x80 {
+                    m.bytes[4..8].copy_from_slice(&xid);
+                }
+            }
+        }
         let syn_flags = match rng.below(10) {
             0 => F_SYN | *rng.pick(&[F_PSH, F_URG, F_ECE, F_CWR, F_PSH | F_URG, F_ECE | F_URG]),
             _ => F_SYN,
@@ -664,11 +691,24 @@ impl TcpClient {
             3 => AckMode::Random,
             _ => AckMode::Correct,
         };
+        // coincidences between fields that usually differ: same port at both ends, and the
+        // responder's own address as the source (a "LAND" segment) - neither is a reason not to answer
+        let mut a = a;
+        let (mut sport, dport) = (rng.edge_port(), rng.edge_port());
+        if !offscope && rng.chance(1, 30) {
+            sport = dport;
+        }
+        if !offscope && rng.chance(1, 40) {
+            a.src = a.dst;
+            if rng.chance(2, 3) {
+                sport = dport;
+            }
+        }
         TcpClient {
             peer,
             a,
-            sport: rng.edge_port(),
-            dport: rng.edge_port(),
+            sport,
+            dport,
             isn: rng.edge_u32(),
             msgs,
             syn_flags,
@@ -876,11 +916,22 @@ impl UdpClient {
         let msgs = (0..n)
             .map(|_| (rng.below(plan.horizon_us), Message::gen(rng, focus, false)))
             .collect();
+        let mut a = a;
+        let (mut sport, dport) = (rng.edge_port(), rng.edge_port());
+        if !offscope && rng.chance(1, 30) {
+            sport = dport;
+        }
+        if !offscope && rng.chance(1, 40) {
+            a.src = a.dst;
+            if rng.chance(2, 3) {
+                sport = dport;
+            }
+        }
         UdpClient {
             peer,
             a,
-            sport: rng.edge_port(),
-            dport: rng.edge_port(),
+            sport,
+            dport,
             msgs,
             ttl: rng.range(1, 255) as u8,
             no_csum: !v6 && rng.chance(1, 10),
